@@ -3,7 +3,8 @@
 Real code executed symbolically: vertex_format, vertex_entry_structs, get_vertex_input_structs, vertex_input_structs /
 vertex_struct_methods, vertex_states.
 Symbolic: for every member of two vertex input structs its type (scalar / vector, size, kind, width) and its binding
-(builtin or @location(l), l over all u32).  Three vertex entries share the structs in different argument orders.
+(builtin or @location(l), l over all u32).  Four vertex entries share the structs in different argument orders; the same parameter NAME denotes different structs in
+different entries (p: VC / VA / VB, q: VA / VB), so nothing may be keyed by parameter name.
 """
 import re
 import z3
@@ -14,10 +15,10 @@ from harness.structs_common import TypeHole, set_inner, WGSL_SCALAR
 SRC = '''struct VA { @location(0) a0: vec2<u32>, @builtin(vertex_index) a1: u32, @location(1) a2: vec3<u32> }
 struct VB { @location(2) b0: vec4<u32>, @location(3) b1: vec2<i32> }
 struct VC { @builtin(vertex_index) c0: u32, @builtin(instance_index) c1: u32 }
-@vertex fn e3(c: VC, a: VA) -> @builtin(position) vec4<f32> { return vec4<f32>(0.0); }
-@vertex fn e0(a: VA, b: VB) -> @builtin(position) vec4<f32> { return vec4<f32>(0.0); }
-@vertex fn e1(b: VB) -> @builtin(position) vec4<f32> { return vec4<f32>(0.0); }
-@vertex fn e2(x: VB, @builtin(instance_index) ii: u32, a: VA) -> @builtin(position) vec4<f32> { return vec4<f32>(0.0); }
+@vertex fn e3(p: VC, q: VA) -> @builtin(position) vec4<f32> { return vec4<f32>(0.0); }
+@vertex fn e0(p: VA, q: VB) -> @builtin(position) vec4<f32> { return vec4<f32>(0.0); }
+@vertex fn e1(p: VB) -> @builtin(position) vec4<f32> { return vec4<f32>(0.0); }
+@vertex fn e2(q: VB, @builtin(instance_index) ii: u32, p: VA) -> @builtin(position) vec4<f32> { return vec4<f32>(0.0); }
 @group(0) @binding(0) var<storage, read> gl: array<VB, 2>;
 var<private> gp: array<VA, 2>;
 @fragment fn fs() {}
